@@ -80,6 +80,12 @@ def profile(rng, n):
 THR = [None, -0.5, -0.25, 0, 0.25, 0.5]
 
 
+def core_json(v):
+    from vfw import core  # noqa: PLC0415
+
+    return core.jsonable(v)
+
+
 def run(ctx) -> None:
     rng = ctx.rng
     ctx.require("density.calls", 1000)
@@ -147,6 +153,16 @@ def run(ctx) -> None:
         ctx.count("pressure.calls")
         if adm is None:
             ctx.count("pressure.mean_step_zero_not_judged")
+            # the overall direction is undefined (sign 0); whichever way it is read -- as a downcast, as an upcast, or as
+            # "no step moves strictly in direction 0" -- the flags are those of ONE reading, and never all GOOD
+            steps_ = [p[k + 1] - p[k] for k in range(len(p) - 1)]
+            readings = [[1] + [3 if s_ * sg <= 0 else 1 for s_ in steps_] for sg in (1, -1, 0)]
+            got_ = o.flags.reshape(-1).tolist() if o.kind == "return" and o.flags is not None else None
+            ctx.count("pressure.mean_step_zero_joint_checks")
+            if got_ not in readings:
+                ctx.violation("C13:zero-mean-profile:flags-match-no-reading-of-the-direction",
+                              {"kind": "call", "func": "argo.pressure_increasing_test", "case": {"pressure": p, "carrier": carrier},
+                               "kwargs": {"inp": core_json(inp)}, "observed": o.brief(), "admissible_flag_vectors": readings})
         fs = gen.flagset(o)
         direction = "none" if adm is None else ("down" if sum(p[k + 1] - p[k] for k in range(len(p) - 1)) > 0 else "up") if len(p) > 1 else "single"
         ctx.case(f"pres|{tag}|n{gen.nclass(len(p))}|{direction}|{carrier}|{fs}", trivial=fs == "1",
